@@ -86,7 +86,7 @@ def head(size: int, terminated: bool) -> bytes:
 def scenarios(tier: str) -> List[Any]:
     out = []
     for engine in ("asyncio", "trio"):
-        for limit in (64, 1024) + ((16,) if tier != "quick" else ()):
+        for limit in (16, 64, 1024) + ((5, 23) if tier != "quick" else ()):
             sizes = [limit - 8, limit - 1, limit, limit + 1, limit + 40, limit * 4]
             for size in sizes:
                 for term in (True, False):
@@ -105,7 +105,7 @@ def scenarios(tier: str) -> List[Any]:
             for n in range(1, mx + 3):
                 for mode in ("seq", "seq_early", "seq_ka", "pipe", "h2", "h2c"):
                     out.append((engine, "keepalive", mx, n, mode, 0))
-        for mcs in (1, 2):
+        for mcs in (0, 1, 2):
             for k in (1, 2, 3):
                 out.append((engine, "streams", mcs, k, 0, 0))
         for mhl in (64, 256):
